@@ -281,10 +281,21 @@ class Engine:
 
     def read_field(self, ref, owner, field, sort, heap=None, assume_wf=True):
         arrs = self.heap_arrays((owner, field), sort, heap)
-        terms = self.purify([z3.Select(a, zr(ref)) for a in arrs])
+        p = self.path
+        zref = zr(ref)
+        ck = None
+        if p is not None and self.bound_depth == 0 and heap is None:
+            # memo per path: same arrays, same reference -> same (purified) value
+            ck = (owner, field, tuple(a.get_id() for a in arrs), zref.get_id())
+            hit = p.ghost.setdefault("read_cache", {}).get(ck)
+            if hit is not None and hit[0].eq(zref) and all(x.eq(y) for x, y in zip(hit[1], arrs)):
+                return hit[2]
+        terms = self.purify([z3.Select(a, zref) for a in arrs])
         v = unflatten(sort, terms)
-        if assume_wf and heap is None:
+        if assume_wf and heap is None and not self.spec_mode:
             self.wf_assume(v)
+        if ck is not None and not self.spec_mode:
+            p.ghost["read_cache"][ck] = (zref, list(arrs), v)
         return v
 
     def wf_assume(self, v):
@@ -405,7 +416,7 @@ class Engine:
         """integer terms under non-linear operators that the path pins to a single value are replaced by it
         (in the goal and in the path condition) - the path condition still carries the pinning facts"""
         cands = {}
-        todo = [goal] + [c for c in pc if not is_light(c)]
+        todo = [goal]  # candidates are looked for in the goal only (scanning the whole path condition dominated VC generation)
         seen = set()
         while todo:
             t = todo.pop()
